@@ -2,6 +2,8 @@ package rules
 
 import (
 	"go/types"
+	"sort"
+	"strings"
 
 	"golang.org/x/tools/go/ssa"
 
@@ -86,4 +88,119 @@ func c25(r *core.Run) {
 		r.Check(!fl.Dropped && len(fl.Sinks) > 0, "R2.ids", "stdlib."+name+": GenerateAccountID error", posOf(gen[0]), "error reaches a sink", "the error of GenerateAccountID is ignored")
 	}
 	r.Floor("R2.ids", 2)
+
+	// R3 operands of every CanBorrow call: which borrow type is compared with which (ORIGIN leaves pinned per function)
+	operandOrigins(r, "R3.operands", "c25_canborrow", func(o *types.Func) bool {
+		return o != nil && o.Name() == "CanBorrow" && o.Pkg() != nil && o.Pkg().Path() == mod+"/stdlib"
+	}, "the wanted type is no longer compared with the type it was compared with on the reviewed tree (e.g. the capability's type instead of the requested one is checked against the controller): a borrow with an unrelated type succeeds")
+	r.Floor("R3.operands", 2)
+
+	// R4 the per-path index of storage capability controllers is updated old-path-first: wherever a function both unrecords and
+	// records a controller ID (retarget), the removal from the old path's set dominates the insertion into the new path's set
+	// (the insertion asserts that the ID is not yet present; retargeting to the current path is a valid no-op on the sets)
+	n := 0
+	for _, top := range r.W.SrcFuncsIn("stdlib") {
+		if top.Parent() != nil {
+			continue
+		}
+		// group the calls by the function (literal) they stand in
+		byFn := map[*ssa.Function][2][]ssa.CallInstruction{}
+		for _, c := range core.CallsTo(top, true, named("recordStorageCapabilityController")) {
+			e := byFn[c.Parent()]
+			e[0] = append(e[0], c)
+			byFn[c.Parent()] = e
+		}
+		for _, c := range core.CallsTo(top, true, named("unrecordStorageCapabilityController")) {
+			e := byFn[c.Parent()]
+			e[1] = append(e[1], c)
+			byFn[c.Parent()] = e
+		}
+		for fn, e := range byFn {
+			rec, unrec := e[0], e[1]
+			if len(rec) == 0 || len(unrec) == 0 {
+				continue
+			}
+			n++
+			ok := true
+			for _, rc := range rec {
+				dom := false
+				for _, u := range unrec {
+					if core.Dominates(u, rc) {
+						dom = true
+					}
+				}
+				if !dom {
+					ok = false
+				}
+			}
+			r.Check(ok, "R4.retarget", core.SSAKey(top)+": unrecord before record", fn.Pos(), "the ID leaves the old path's set before it enters the new one",
+				"the controller ID is recorded under the new path before it is removed from the old one: retargeting a controller to its current path hits the duplicate assertion (internal error) instead of being a no-op")
+		}
+	}
+	if n == 0 {
+		r.Undecided("R4.retarget", "stdlib", "no function both records and unrecords a storage capability controller")
+	}
+	r.Floor("R4.retarget", 1)
+}
+
+// operandOrigins: ORIGIN engine as a pinned census — for every call of the selected callees, the data-flow origin leaves of
+// each operand, collected per top-level caller, must still contain the signatures recorded from the reviewed tree.
+func operandOrigins(r *core.Run, rule, table string, sel func(*types.Func) bool, why string) {
+	w := r.W
+	got := map[string][]string{}
+	for _, fn := range w.SrcFuncs() {
+		if fn.Pkg == nil || !w.InScope(fn.Pkg.Pkg.Path()) {
+			continue
+		}
+		top := fn
+		for top.Parent() != nil {
+			top = top.Parent()
+		}
+		for _, c := range core.Calls(fn, false) {
+			o := core.Callee(c)
+			if !sel(o) {
+				continue
+			}
+			cc := c.Common()
+			var ops []ssa.Value
+			if cc.IsInvoke() {
+				ops = append(ops, cc.Value)
+			}
+			ops = append(ops, cc.Args...)
+			var parts []string
+			for _, op := range ops {
+				parts = append(parts, core.OriginLeaves(op))
+			}
+			got[core.SSAKey(top)] = append(got[core.SSAKey(top)], o.Name()+"("+strings.Join(parts, ", ")+")")
+		}
+	}
+	for k := range got {
+		sort.Strings(got[k])
+	}
+	if genMode() {
+		genJSON(r, table, got)
+		return
+	}
+	var pinned map[string][]string
+	if !r.Table(table, &pinned) {
+		return
+	}
+	for _, k := range sortedKeys(pinned) {
+		have := map[string]int{}
+		for _, s := range got[k] {
+			have[s]++
+		}
+		for _, s := range pinned[k] {
+			if have[s] > 0 {
+				have[s]--
+				r.OK(rule, k+": "+s, 0, "operands have their reviewed origins")
+				continue
+			}
+			now := "the call is gone from this function"
+			if len(got[k]) > 0 {
+				now = "now: " + strings.Join(got[k], " // ")
+			}
+			r.Bad(rule, k+": "+s, 0, why+" ("+now+")")
+		}
+	}
 }
